@@ -43,6 +43,11 @@ def spanTok : Bytes → Bytes → Bytes × Bytes
   | acc, [] => (acc, [])
   | acc, c :: r => if tokenChar c then spanTok (acc ++ [c]) r else (acc, c :: r)
 
+/-- one optional blank after `,` and `:` (the console encoder's spaced form) -/
+def skipSp : Bytes → Bytes
+  | 32 :: r => r
+  | s => s
+
 mutual
 def parseV : Nat → Bytes → Option (J × Bytes)
   | 0, _ => none
@@ -64,7 +69,7 @@ def parseElems : Nat → List J → Bytes → Option (J × Bytes)
   | 0, _, _ => none
   | fuel + 1, acc, s =>
     match parseV fuel s with
-    | some (v, 44 :: r) => parseElems fuel (acc ++ [v]) r
+    | some (v, 44 :: r) => parseElems fuel (acc ++ [v]) (skipSp r)
     | some (v, 93 :: r) => some (.arr (acc ++ [v]), r)
     | _ => none
 def parseMembers : Nat → List (Bytes × J) → Bytes → Option (J × Bytes)
@@ -74,8 +79,8 @@ def parseMembers : Nat → List (Bytes × J) → Bytes → Option (J × Bytes)
     | 34 :: r =>
       match scanStr 0 [] r with
       | some (k, 58 :: r2) =>
-        match parseV fuel r2 with
-        | some (v, 44 :: r3) => parseMembers fuel (acc ++ [(k, v)]) r3
+        match parseV fuel (skipSp r2) with
+        | some (v, 44 :: r3) => parseMembers fuel (acc ++ [(k, v)]) (skipSp r3)
         | some (v, 125 :: r3) => some (.obj (acc ++ [(k, v)]), r3)
         | _ => none
       | _ => none
